@@ -75,6 +75,30 @@ pub struct Error<E1, E2> {
     pub location: Range<usize>,
 }
 
+/// Parses a variable value as a decimal, octal (`0...`), or hexadecimal
+/// (`0x...`) integer constant with an optional sign.
+fn parse_integer_constant(value: &str) -> Option<i64> {
+    let (sign, digits) = match value.strip_prefix('-') {
+        Some(digits) => ("-", digits),
+        None => ("", value.strip_prefix('+').unwrap_or(value)),
+    };
+    let (radix, digits) = if let Some(digits) = digits
+        .strip_prefix("0x")
+        .or_else(|| digits.strip_prefix("0X"))
+    {
+        (0x10, digits)
+    } else if digits.len() > 1 && digits.starts_with('0') {
+        (0o10, &digits[1..])
+    } else {
+        (10, digits)
+    };
+    if !digits.starts_with(|c: char| c.is_ascii_alphanumeric()) {
+        return None;
+    }
+    // Parse with the sign so that the minimum value is accepted.
+    i64::from_str_radix(&format!("{sign}{digits}"), radix).ok()
+}
+
 /// Expands a variable to its value.
 fn expand_variable<E: Env>(
     name: &str,
@@ -83,10 +107,10 @@ fn expand_variable<E: Env>(
 ) -> Result<Value, Error<E::GetVariableError, E::AssignVariableError>> {
     match env.get_variable(name) {
         Ok(None) => Ok(Value::Integer(0)),
-        // TODO Parse non-decimal integer and float
-        Ok(Some(value)) => match value.parse() {
-            Ok(number) => Ok(Value::Integer(number)),
-            Err(_) => Err(Error {
+        // TODO Parse float
+        Ok(Some(value)) => match parse_integer_constant(value) {
+            Some(number) => Ok(Value::Integer(number)),
+            None => Err(Error {
                 cause: EvalError::InvalidVariableValue(value.to_string()),
                 location: location.clone(),
             }),
